@@ -287,6 +287,8 @@ theorem insertByKey_plain (e : Op) (he : isPlainMap e = true) : ∀ (l : List Op
         refine ⟨x :: r, by simp [h1, bind, Except.bind], ?_⟩
         exact (List.Perm.cons x h2).trans (List.Perm.swap e x rest)
       · simp only [hlt, decide_false]
+        have hx' : x.notInsert = true := by cases x <;> simp_all [isPlainMap, Op.notInsert]
+        simp only [hx', Bool.not_true, Bool.and_false, Bool.false_and, Bool.false_eq_true, if_false]
         exact ⟨e :: x :: rest, rfl, List.Perm.refl _⟩
 
 theorem sortByKey_plain : ∀ (l : List Op), (∀ o ∈ l, isPlainMap o = true) → ∃ l', sortByKey l = .ok l' ∧ l'.Perm l
